@@ -219,8 +219,10 @@ Record cols := mkCols {
   c_top : list bool;
   c_sub : list (opid * option Z) }.
 
-(* [SuccInsert] *)
-Record sins := mkSI { si_id : opid; si_pos : nat; si_inc : option Z; si_len : N; si_sub : nat }.
+(* [SuccInsert]; [si_width] is not a field of the Rust struct: it is what
+   [self.get(pos).map(|op| op.width(Text, encoding))] answers for the row (a function of the op
+   stored there, which these columns do not hold) *)
+Record sins := mkSI { si_id : opid; si_pos : nat; si_inc : option Z; si_len : N; si_sub : nat; si_width : option N }.
 (* [SuccUndo]: the insert and what it overwrote ([None] = column not written) *)
 Record sundo := mkSU { su_ins : sins; su_vis : option bool; su_text : option (option N); su_top : option bool }.
 
@@ -268,9 +270,12 @@ Definition add_one (s : astate) (i : sins) : res astate :=
     Ok (mkAS (mkCols cnt vis text top sub) (as_undo s ++ [u]) succ_inc (Some (si_pos i)) (as_expose s) true)
   | Some _ =>
     if as_delete s && negb (as_expose s) then
-      let u := mkSU i None None (nth_error (c_top c) (si_pos i)) in
+      (* the first surviving counter below the ops deleted so far becomes the top op and carries
+         the element's width in the text index *)
+      let u := mkSU i None (nth_error (c_text c) (si_pos i)) (nth_error (c_top c) (si_pos i)) in
       let* top := set_at (si_pos i) true (c_top c) in
-      Ok (mkAS (mkCols cnt (c_vis c) (c_text c) top sub) (as_undo s ++ [u]) succ_inc (Some (si_pos i)) true (as_delete s))
+      let* text := set_at (si_pos i) (si_width i) (c_text c) in
+      Ok (mkAS (mkCols cnt (c_vis c) text top sub) (as_undo s ++ [u]) succ_inc (Some (si_pos i)) true (as_delete s))
     else
       Ok (mkAS (mkCols cnt (c_vis c) (c_text c) (c_top c) sub) (as_undo s ++ [mkSU i None None None])
                succ_inc (Some (si_pos i)) true (as_delete s))
